@@ -16,6 +16,9 @@ from selftest import mutate
 # property -> [(canary name, file, operator, [substrings that must all occur in the site description], expected rule id)]
 CANARIES = {
     "C01": [
+        ('defaulted-list-kept-on-the-class', 'stix2/base.py', 'text', ['        self._defaulted_optional_properties = defaulted', '        cls._defaulted_optional_properties = defaulted'], 'C01.history-independence'),
+        ('index-from-two-sequences', 'stix2/serialization.py', 'text', ['            idx = _find(list(obj), search_key)', '            idx = _find(list(obj._properties), search_key)\n            if idx < 0:\n                idx = _find(list(obj), search_key)'], 'C01.encoder-siblings'),
+        ('text-cleaned-before-decoding', 'stix2/parsing.py', 'text', ['    obj = _get_dict(data)', '    obj = _get_dict(data.strip() if isinstance(data, str) else data)'], 'C01.encoder-siblings'),
         ("registry-key-typo", "stix2/v21/__init__.py", "str-perturb", ["'campaign'"], "C01.registry-key"),
         ("fixed-spec_version-lost", "stix2/v21/sdo.py", "drop-keyword", ["Grouping", "drop fixed="], "C01.version-detectable"),
         ("encoder-drops-fixed", "stix2/base.py", "drop-bool-operand", ["_STIXBase.__init__", "drop operand 1", "_fixed_value"], "C01.defaulted-bookkeeping"),
@@ -26,6 +29,7 @@ CANARIES = {
         ("marking-payload-built-without-the-switch", "stix2/v21/common.py", "text", ["                    allow_custom=kwargs.get('allow_custom', False),\n                    interoperability=kwargs.get('interoperability', False),\n                    **defn\n", "                    interoperability=kwargs.get('interoperability', False),\n                    **defn\n"], "C01.custom-content-round-trip"),
     ],
     "C02": [
+        ('extension-key-looked-up-everywhere', 'stix2/properties.py', 'text', ['            cls = class_for_type(key, self.spec_version, "extensions")', '            cls = class_for_type(key, self.spec_version)'], 'C02.strict-refusal'),
         ("required-lost", "stix2/v21/sdo.py", "drop-keyword", ["Identity", "drop required="], "C02.table"),
         ("range-off-by-one", "stix2/v21/observables.py", "int+1", ["65535 -> 65536"], "C02.table"),
         ("super-chain-cut", "stix2/v21/sdo.py", "delete-call-stmt", ["Campaign._check_object_constraints", "super("], "C02.super-chain"),
@@ -39,12 +43,15 @@ CANARIES = {
         ("lenient-base64-validation", "stix2/properties.py", "text", ["base64.b64decode(value, validate=True)", "base64.b64decode(value)"], "C02.binary-values"),
     ],
     "C03": [
+        ('ssdeep-needs-three-characters', 'stix2/hashes.py', 'text', ['[a-z0-9/+:.]{1,128}', '[a-z0-9/+:.]{3,128}'], 'C03.regex-language'),
+        ('selector-pre-check', 'stix2/base.py', 'text', ["                validate(self, m.get('selectors'))", "                if not m.get('selectors'):\n                    raise InvalidSelectorError(self, m)\n                validate(self, m.get('selectors'))"], 'C03.selector-acceptance'),
         ("revoked-default-flipped", "stix2/v21/sdo.py", "bool-flip", ["Indicator", "False -> True", "lambda: False"], "C03.table"),
         ("vocabulary-entry-lost", "stix2/v21/vocab.py", "drop-list-element", ["OPINION_AGREE", "OPINION_"], "C03.table"),
         ("empty-string-means-absent", "stix2/base.py", "text", ["if prop_val not in (None, []):", "if prop_val not in (None, [], ''):"], "C03.absent-values"),
         ("named-argument-by-truthiness", "stix2/v21/common.py", "text", ["if statement is not None and kwargs.get('statement') is None:", "if statement and not kwargs.get('statement'):"], "C03.absent-values"),
     ],
     "C04": [
+        ('hashes-slot-is-a-plain-dictionary', 'stix2/v21/observables.py', 'text', ['        (\'hashes\', HashesProperty(HASHING_ALGORITHM, spec_version="2.1")),', '        (\'hashes\', DictionaryProperty(spec_version="2.1")),'], 'C04.flag-back'),
         ("hard-coded-true", "stix2/properties.py", "kw-true", ["ListProperty.clean", "allow_custom=True", "self.contained("], "C04.forward"),
         ("flag-dropped", "stix2/properties.py", "const-flag-return", ["EmbeddedObjectProperty.clean"], "C04.flag-back"),
         ("strict-refusal-removed", "stix2/properties.py", "drop-raise-guard", ["STIXObjectProperty.clean", "not allow_custom and has_custom"], "C04.flag-back"),
@@ -63,6 +70,8 @@ CANARIES = {
         ("reference-flag-parenthesis-misplaced", "stix2/properties.py", "text", ["        has_custom = not is_object(obj_type, self.spec_version) \\\n            or obj_type.startswith(\"x-\")", "        has_custom = not (is_object(obj_type, self.spec_version)\n                          or obj_type.startswith(\"x-\"))"], "C04.flag-back"),
     ],
     "C05": [
+        ('change-names-filtered', 'stix2/versioning.py', 'text', ['        changed_properties.update(kwargs["custom_properties"])', '        changed_properties.update(p for p in kwargs["custom_properties"] if p not in getattr(type(data), "_properties", ()))'], 'C05.unmodifiable'),
+        ('option-key-for-dictionaries-too', 'stix2/versioning.py', 'text', ['    if isinstance(data, stix2.base._STIXBase):\n        if allow_custom is None:', '    if True:\n        if allow_custom is None:'], 'C05.pipeline'),
         ("fudge-not-strict", "stix2/versioning.py", "flip-compare", ["_fudge_modified", "LtE -> Lt"], "C05.granularity"),
         ("copy-removed", "stix2/versioning.py", "unwrap-copy", ["new_version", "copy.deepcopy", "data._inner"], "C05.pipeline"),
         ("supplied-equal-accepted", "stix2/versioning.py", "flip-compare", ["new_version", "LtE -> Lt", "new_modified"], "C05.strict-compare"),
@@ -72,6 +81,8 @@ CANARIES = {
         ("modified-through-custom-properties-unchecked", "stix2/versioning.py", "text", ["            kwargs.setdefault(\n                \"modified\", kwargs[\"custom_properties\"][\"modified\"],\n            )\n", "            pass\n"], "C05.pipeline"),
     ],
     "C06": [
+        ('custom-members-not-hashed', 'stix2/base.py', 'text', ['            k: _make_json_serializable(v)\n            for k, v in value.items()\n', "            k: _make_json_serializable(v)\n            for k, v in value.items()\n            if not k.startswith('x_')\n"], 'C06.wiring'),
+        ('generator-failure-swallowed', 'stix2/v21/base.py', 'text', ['                raise ValueError(\n                    "%s content is nested too deeply" % self.__class__.__name__,\n                ) from None', '                id_ = None'], 'C06.wiring'),
         ("contributing-name-lost", "stix2/v21/observables.py", "drop-list-element", ["'serial_number'"], "C06.table"),
         ("hash-priority-typo", "stix2/base.py", "str-perturb", ["_choose_one_hash", "'SHA-256'"], "C06.constants"),
         ("insertion-order-first-hash", "stix2/base.py", "text", ["k = next(iter(sorted(hash_dict)), None)", "k = next(iter(hash_dict), None)"], "C06.constants"),
@@ -83,6 +94,9 @@ CANARIES = {
         ("collision-test-case-folded", "stix2/properties.py", "text", ["            if spec_name in spec_dict and spec_dict[spec_name] != hash_v:", "            if spec_name in spec_dict and spec_dict[spec_name].lower() != hash_v.lower():"], "C06.order-free-cleaning"),
     ],
     "C07": [
+        ('option-rebound-in-loop', 'stix2/markings/granular_markings.py', 'text', ["                    lng = marking.get('lang')\n", "                    lang = marking.get('lang') if lang else None\n                    lng = lang\n"], 'C07.loops-complete'),
+        ('option-key-for-dictionaries-too', 'stix2/versioning.py', 'text', ['    if isinstance(data, stix2.base._STIXBase):\n        if allow_custom is None:', '    if True:\n        if allow_custom is None:'], 'C07.new-version'),
+        ('lang-option-clears-references', 'stix2/markings/granular_markings.py', 'text', ["                if ref and marking_ref:\n                    granular_marking['marking_ref'] = ''", "                if ref and marking_ref or lang:\n                    granular_marking['marking_ref'] = ''"], 'C07.query-siblings'),
         ("path-prefix", "stix2/markings/granular_markings.py", "drop-bool-operand", ["get_markings", "inherited", "drop operand 1", "startswith"], "C07.query-siblings"),
         ("normal-form-skipped", "stix2/markings/granular_markings.py", "drop-self-assign-call", ["add_markings", "compress_markings"], "C07.normal-form"),
         ("object-itself-returned", "stix2/markings/object_markings.py", "text", ["    return new_version(obj, object_marking_refs=list(object_markings), allow_custom=True)", "    obj['object_marking_refs'] = list(object_markings)\n    return obj"], "C07.new-version"),
@@ -91,6 +105,7 @@ CANARIES = {
         ("compression-drops-implied-selectors", "stix2/markings/utils.py", "text", ["    compressed = \\\n        [", "    for item_ in list(map_):\n        map_[item_] = {s_ for s_ in map_[item_] if '.' not in s_}\n    compressed = \\\n        ["], "C07.normal-form"),
     ],
     "C08": [
+        ('selector-pre-check', 'stix2/base.py', 'text', ["                validate(self, m.get('selectors'))", "                if not m.get('selectors'):\n                    raise InvalidSelectorError(self, m)\n                validate(self, m.get('selectors'))"], 'C08.reject'),
         ("validate-skipped", "stix2/markings/granular_markings.py", "delete-call-stmt", ["add_markings", "utils.validate"], "C08.every-function"),
         ("super-chain-cut", "stix2/v20/sdo.py", "delete-call-stmt", ["Indicator._check_object_constraints", "super("], "C08.every-construction"),
         ("descent-dict-only", "stix2/markings/utils.py", "text", ["    if isinstance(value, collections.abc.Mapping):", "    if isinstance(value, dict):"], "C08.descends-into-objects"),
@@ -99,6 +114,7 @@ CANARIES = {
         ("first-selector-only", "stix2/markings/utils.py", "loop-once", ["validate"], "C08.reject"),
     ],
     "C09": [
+        ('repeats-distributed-over-or', 'stix2/equivalence/pattern/transform/observation.py', 'text', ['    def transform_followedby(self, ast):\n        return self.__transform(ast)\n', '    def transform_followedby(self, ast):\n        return self.__transform(ast)\n\n    def transform_qualified(self, ast):\n        inner = ast.observation_expression\n        if isinstance(inner, OrObservationExpression):\n            return OrObservationExpression([QualifiedObservationExpression(c, ast.qualifier) for c in inner.operands]), True\n        return ast, False\n'], 'C09.pipeline'),
         ("order-entry-lost", "stix2/equivalence/pattern/compare/comparison.py", "drop-list-element", ["'LIKE'"], "C09.producers-handlers"),
         ("two-huge-float-literals-are-one-constant", "stix2/patterns.py", "text", ['        if not math.isfinite(self.value):', '        if self.value != self.value:'], "C09.sets-and-numbers"),
         ("comparator-not-mirror", "stix2/equivalence/pattern/compare/comparison.py", "negate-if", ["object_path_cmp", "path1.object_type_name < path2.object_type_name"], "C09.comparator-mirror"),
@@ -112,6 +128,9 @@ CANARIES = {
         ("followedby-absorbs-and", "stix2/equivalence/pattern/transform/observation.py", "text", ["                    elif type(child1) is type(child2):", "                    elif isinstance(child1, _CompoundObservationExpression):"], "C09.absorption"),
     ],
     "C10": [
+        ('and-group-dropped', 'stix2/pattern_visitor.py', 'text', ['            return self.instantiate("ParentheticalExpression", children[1])\n        else:', '            return children[1]\n        else:'], 'C10.operator-table'),
+        ('set-literal-loses-members', 'stix2/patterns.py', 'text', ['        self.value = [x if isinstance(x, _Constant) else make_constant(x) for x in values]', '        self.value = [x if isinstance(x, _Constant) else make_constant(x) for x in values if x is not None]'], 'C10.operator-table'),
+        ('quoted-step-escaped-twice', 'stix2/pattern_visitor.py', 'text', ['current.property_name if isinstance(current, BasicObjectPathComponent) else str(current),', 'current.property_name if isinstance(current, BasicObjectPathComponent) else "\'%s\'" % escape_quotes_and_backslashes(current.value),'], 'C10.path-step-kinds'),
         ("negation-constant", "stix2/pattern_visitor.py", "last-arg-false", ["visitPropTestSet", "InComparisonExpression"], "C10.not-aware"),
         ("escape-order", "stix2/patterns.py", "swap-args", ["escape_quotes_and_backslashes", "replace("], "C10.escape-order"),
         ("within-refuses-float", "stix2/patterns.py", "text", ["if isinstance(number_of_seconds, (IntegerConstant, FloatConstant)):", "if isinstance(number_of_seconds, IntegerConstant):"], "C10.token-domain"),
@@ -132,12 +151,14 @@ CANARIES = {
         ("string-only-operator-guesses-a-timestamp", "stix2/patterns.py", "text", ["        elif isinstance(rhs, str) and self.operator in (\n            \"LIKE\", \"MATCHES\", \"ISSUBSET\", \"ISSUPERSET\",\n        ):", "        elif isinstance(rhs, str) and self.operator in (\n            \"LIKE\", \"ISSUBSET\", \"ISSUPERSET\",\n        ):"], "C10.operand-kinds"),
     ],
     "C11": [
+        ('layout-guessed-from-the-query', 'stix2/datastore/filesystem.py', 'text', ['            type_is_versioned = _is_versioned_type_dir(type_path, type_dir)', '            type_is_versioned = _is_versioned_type_dir(type_path, type_dir) if auth_ids.auth_type != AuthSet.WHITE else True'], 'C11.filesystem-pruning'),
         ("overwrite-refusal-removed", "stix2/datastore/filesystem.py", "drop-raise-guard", ["_check_path_and_write", "os.path.isfile"], "C11.check-before-write"),
         ("sink-encoding-fixed", "stix2/datastore/filesystem.py", "text", ["bundlify=bundlify, encoding=encoding),", "bundlify=bundlify),"], "C11.encoding-agreement"),
         ("write-encoding-literal", "stix2/datastore/filesystem.py", "text", ["            encoding = self.encoding\n", "            encoding = 'utf-8'\n"], "C11.encoding-agreement"),
         ("oldest-returned", "stix2/datastore/memory.py", "text", ['candidate["modified"] > stix_obj["modified"]', 'candidate["modified"] < stix_obj["modified"]'], "C11.newest"),
     ],
     "C12": [
+        ('layout-guessed-from-the-query', 'stix2/datastore/filesystem.py', 'text', ['            type_is_versioned = _is_versioned_type_dir(type_path, type_dir)', '            type_is_versioned = _is_versioned_type_dir(type_path, type_dir) if auth_ids.auth_type != AuthSet.WHITE else True'], 'C12.optimiser-table'),
         ("operator-flipped", "stix2/datastore/filters.py", "flip-compare", ["Filter._check_property", "GtE -> Gt", "stix_obj_property >= filter_value"], "C12.operator-table"),
         ("optimiser-unsound", "stix2/datastore/filesystem.py", "str-perturb", ["_find_search_optimizations", "'!='"], "C12.optimiser-table"),
         ("string-in-prunes-directories", "stix2/datastore/filesystem.py", "text", ['        if filter_.op == "in" and isinstance(filter_.value, str):', '        if False:'], "C12.optimiser-table"),
@@ -148,6 +169,7 @@ CANARIES = {
         ("filter-value-joined-into-a-path-as-it-is", "stix2/datastore/filesystem.py", "text", ["            if os.path.basename(filename) != filename or \"\\0\" in filename:\n", "            if False:\n"], "C12.optimiser-table"),
     ],
     "C13": [
+        ('resolved-type-written-back', 'stix2/base.py', 'text', ['                ref_type = self._STIXBase__valid_refs[ref]\n', '                ref_type = self._STIXBase__valid_refs[ref] = str(self._STIXBase__valid_refs[ref])\n'], 'C13.no-param-mutation'),
         ("copy-removed", "stix2/properties.py", "unwrap-copy", ["ExtensionsProperty.clean", "copy.deepcopy"], "C13.no-param-mutation"),
         ("setattr-guard-inverted", "stix2/base.py", "negate-if", ["_STIXBase.__setattr__"], "C13.immutable-api"),
         ("underscore-properties-assignable", "stix2/base.py", "text", ['        if not name.startswith("_") or \\\n                name in self.__dict__.get("_inner", ()):', '        if not name.startswith("_"):'], "C13.immutable-api"),
@@ -155,6 +177,7 @@ CANARIES = {
         ("class-properties-mutated-through-self", "stix2/v20/common.py", "text", ["self._properties = copy.deepcopy(self._properties)", "self._properties = self._properties"], "C13.history-independence"),
     ],
     "C14": [
+        ('helper-asks-the-content', 'stix2/parsing.py', 'text', ['def dict_to_stix2(', 'def _claims_21(content):\n    return detect_spec_version(content) != "2.0"\n\n\ndef dict_to_stix2(', '        if version == "2.0" or not isinstance(extensions, collections.abc.Mapping):', '        if not _claims_21(stix_dict) or not isinstance(extensions, collections.abc.Mapping):'], 'C14.version-in-scope'),
         ("version-positional", "stix2/datastore/memory.py", "kw-to-positional", ["_add", "version=version", "parse("], "C14.binding"),
         ("version-not-forwarded", "stix2/datastore/filesystem.py", "drop-keyword", ["FileSystemSource.get", "drop version="], "C14.forward"),
         ("taxii-all-versions-drops-version", "stix2/datastore/taxii.py", "text", ["self.query(query=query, version=version, _composite_filters", "self.query(query=query, _composite_filters"], "C14.version-in-scope"),
@@ -164,6 +187,7 @@ CANARIES = {
         ("version-guard-replaced-by-a-property-name-test", "stix2/base.py", "text", ["                not isinstance(self, stix2.v20._STIXBase20):\n            # (STIX 2.0 has no extension definitions.)", "                \"spec_version\" in self._properties:\n            # (STIX 2.0 has no extension definitions.)"], "C14.version-constants"),
     ],
     "C15": [
+        ('offset-cut-off-before-reading', 'stix2/utils.py', 'text', ['            parsed = dt.datetime.strptime(value, fmt)', "            value = value.replace('+00:00', 'Z')\n            parsed = dt.datetime.strptime(value, fmt)"], 'C15.api-domain'),
         ("millisecond-two-digits", "stix2/utils.py", "int-1", ["format_datetime", "3 -> 2", ":3"], "C15.branch-table"),
         ("utc-branches-swapped", "stix2/utils.py", "negate-if", ["format_datetime", "tzinfo is None"], "C15.utc"),
         ("millisecond-truncation-off", "stix2/utils.py", "int+1", ["parse_into_datetime", "1000 -> 1001"], "C15.truncate"),
@@ -180,6 +204,8 @@ CANARIES = {
         ("escape-entry-lost", "stix2/canonicalization/Canonicalize.py", "drop-dict-entry", ["drop entry '\\t'"], "C16.escapes"),
     ],
     "C17": [
+        ('bundle-members-written-one-by-one', 'stix2/datastore/filesystem.py', 'text', ['            parsed_data = parse(stix_data, allow_custom=self.allow_custom, version=version)\n', "            if isinstance(stix_data, dict) and stix_data.get('type') == 'bundle':\n                for member in stix_data.get('objects', []):\n                    self.add(member, version=version, pretty=pretty)\n                return\n            parsed_data = parse(stix_data, allow_custom=self.allow_custom, version=version)\n"], 'C17.commit-last'),
+        ('method-of-any-extension', 'stix2/v21/observables.py', 'text', ['        super(Process, self)._check_object_constraints()\n', "        super(Process, self)._check_object_constraints()\n        for ext in self.get('extensions', {}).values():\n            ext._check_at_least_one_property()\n"], 'C17.optional-subscript'),
         ("wrapper-handler-lost", "stix2/base.py", "drop-except-handler", ["_STIXBase._check_property", "except Exception"], "C17.wrapper"),
         ("shape-test-removed", "stix2/parsing.py", "drop-raise-guard", ["dict_to_stix2", "'type' not in stix_dict"], "C17.raw-deref"),
         ("registry-class-attribute-unguarded", "stix2/base.py", "text", ["""getattr(
@@ -210,6 +236,8 @@ CANARIES = {
         ("registry-indexed-by-the-content-version", "stix2/registry.py", "text", ["    cat_map = STIX2_OBJ_MAPS.get(stix_version)\n", "    cat_map = STIX2_OBJ_MAPS[stix_version]\n"], "C17.raw-deref"),
     ],
     "C18": [
+        ('ids-skipped-by-type-prefix', 'stix2/datastore/__init__.py', 'text', ["            results.extend(self.query([f for f in filter_list] + [Filter('id', '=', i)]))", "            if i.startswith('x-'):\n                continue\n            results.extend(self.query([f for f in filter_list] + [Filter('id', '=', i)]))"], 'C18.navigation'),
+        ('newest-by-text', 'stix2/datastore/__init__.py', 'text', ['            ver = obj.get("modified") or obj.get("created")\n\n            if stix_obj is None or ver is None or ver > latest_ver:', '            ver = str(obj.get("modified") or obj.get("created"))\n\n            if stix_obj is None or ver is None or ver > latest_ver:'], 'C18.newest'),
         ("own-filters-not-forwarded", "stix2/datastore/__init__.py", "delete-call-stmt", ["CompositeDataSource.query", "all_filters.add(self.filters)"], "C18.member-forward"),
         ("newest-reversed", "stix2/datastore/__init__.py", "reverse-compare", ["CompositeDataSource.get", "ver > latest_ver"], "C18.newest"),
         ("related-objects-per-member", "stix2/datastore/__init__.py", "text", ["        results = super(CompositeDataSource, self).related_to(*args, **kwargs)\n", "        results = []\n        for ds in self.data_sources:\n            results.extend(ds.related_to(*args, **kwargs))\n"], "C18.navigation-over-union"),
@@ -217,6 +245,7 @@ CANARIES = {
         ("source-dropped-when-a-store-is-given", "stix2/environment.py", "text", ["        if source:\n            self.source.add_data_source(source)", "        elif source:\n            self.source.add_data_source(source)"], "C18.member-forward"),
     ],
     "C19": [
+        ('content-overrides-the-named-version', 'stix2/parsing.py', 'text', ['        if not version:\n            version = detect_spec_version(obj)', "        if not version or 'spec_version' in obj:\n            version = detect_spec_version(obj)"], 'C19.version-scope'),
         ("duplicate-refusal-removed", "stix2/registration.py", "drop-raise-guard", ["_register_observable", "OBJ_MAP_OBSERVABLE"], "C19.map-agreement"),
         ("wrong-category", "stix2/registration.py", "str-perturb", ["_register_marking", "'markings'"], "C19.map-agreement"),
         ("type-regex-backtracks", "stix2/properties.py", "text", ["TYPE_21_REGEX = re.compile(r'^[a-z][a-z0-9-]*\\Z')", "TYPE_21_REGEX = re.compile(r'^([a-z][a-z0-9]*)+([a-z0-9-]+)*-?\\Z')"], "C19.type-grammar"),
@@ -229,6 +258,7 @@ CANARIES = {
         ("property-table-aliases-the-callers-dict", "stix2/custom.py", "text", ["def _get_properties_dict(properties):\n    try:", "def _get_properties_dict(properties):\n    if isinstance(properties, dict):\n        return properties\n    try:"], "C19.validation-before-write"),
     ],
     "C20": [
+        ('error-built-but-not-raised', 'stix2/confidence/scales.py', 'text', ['def none_low_med_high_to_value(', 'def _out_of_bounds(v):\n    return ValueError(v)\n\n\ndef none_low_med_high_to_value(', '    elif 100 >= confidence_value >= 70:\n        return \'High\'\n    else:\n        raise ValueError("Range of values out of bounds: %s" % confidence_value)', "    elif confidence_value >= 70:\n        return 'High'\n    else:\n        _out_of_bounds(confidence_value)"], 'C20.refuse-outside'),
         ("boundary-overlap", "stix2/confidence/scales.py", "int+1", ["value_to_wep", "39 -> 40"], "C20.specification"),
         ("boundary-gap", "stix2/confidence/scales.py", "int-1", ["value_to_wep", "39 -> 38"], "C20.total"),
         ("label-value-swapped", "stix2/confidence/scales.py", "int+1", ["dni_to_value", "85 -> 86"], "C20.specification"),
@@ -245,10 +275,11 @@ def build_overlay(root, relpath, opname, needles):
         return None
     if opname == "text":
         # plain replacement of one expression text by another (first occurrence); must still compile
-        old, new = needles
-        if old not in src:
-            return None
-        out = src.replace(old, new, 1)
+        out = src
+        for old, new in zip(needles[0::2], needles[1::2]):
+            if old not in out:
+                return None
+            out = out.replace(old, new, 1)
         try:
             compile(out, relpath, "exec")
         except SyntaxError:
